@@ -17,10 +17,13 @@
 // Tolerances (DESIGN 2.6): the sums are integers, hence exact; what is left is the rounding of
 // the final expression.
 //   average : one correctly rounded division of exact operands => error <= 0.5 ulp; tol = 4 eps |mean|.
-//   variance: the final subtraction  sum(x^2) - n*avg^2  has conditioning sum(x^2)/((W-1) var);
-//             tol = 8 eps sum(x^2)/(W-1)  (worst case of a straightforward evaluation is
-//             ~4 eps sum(x^2)/(W-1): conversion of the 64-bit sum of squares, its division, the
-//             square of the average and the product by n).
+//   variance: the final subtraction  X - Y,  X = sum(x^2), Y = n*avg^2 <= X, has conditioning
+//             X/((W-1) var); tol = 16 eps X/(W-1).  First-order worst case of a straightforward
+//             evaluation, u = eps/2: X carries 2u (conversion of the 64-bit sum of squares, division
+//             by m^2), Y carries 4u (avg, avg*avg, product by n), the subtraction and the division by
+//             W-1 one u each: <= (2u X + 4u Y + 2u X)/(W-1) <= 4 eps X/(W-1); the tolerance leaves a
+//             factor 4 above that bound (DESIGN proposed 8 eps; observed ratios were then 0.26-0.31,
+//             above the 0.25 calibration gate, hence 16).
 // Neither tolerance grows with the length of the history: drift would show up.
 #include <Eigen/Core>
 #include <memory>
@@ -322,7 +325,7 @@ static bool run_stats(vh::Ctx & c, const StatCfg & s, const std::vector<Op> & op
       F.expected = expv;
       F.sumsq = sumsq;
       LD verr = fabsl((LD)F.got - expv);
-      if (!c.expect_le("variance.vs_exact_unbiased", verr, 8 * (LD)EPS * sumsq / (LD)(W - 1),
+      if (!c.expect_le("variance.vs_exact_unbiased", verr, 16 * (LD)EPS * sumsq / (LD)(W - 1),
         "variance_mismatch", params,
         [&F]() {return vh::J().raw("case", F.wit()).f("got", F.got).f("expected", F.expected).f("sum_x2", F.sumsq).str();}))
       {
